@@ -221,6 +221,18 @@ fn run_root_case(
     }
     s.push_str(&fdt);
     s.push('\n');
+    // where the returned descriptor points: inside the root's tree, or not
+    if let ops::Outcome::Fd(fd) = &outcome {
+        use std::os::fd::AsRawFd;
+        match effect::rel_path_of_fd(&top, fd.as_raw_fd()) {
+            Some(p) if p == b"root" || p.starts_with(b"root/") => s.push_str(&format!("loc inside {}\n", fmt::hex(&p))),
+            Some(p) => s.push_str(&format!("loc outside {}\n", fmt::hex(&p))),
+            None => {
+                let p = fs::read_link(format!("/proc/self/fd/{}", fd.as_raw_fd())).map(|p| p.as_os_str().as_bytes().to_vec()).unwrap_or_default();
+                s.push_str(&format!("loc outside {}\n", fmt::hex(&p)))
+            }
+        }
+    }
     for d in tree::snapshot_diff(&before_snap, &after_snap) {
         s.push_str("snap ");
         s.push_str(&d);
@@ -388,6 +400,14 @@ fn main() {
         no_openat2,
     };
     PSL_AT_START.store(protected_symlinks(), Ordering::SeqCst);
+    if cmd == "fd-init" {
+        // no warm-up: what does the *first* use of the library leave open in a fresh process?
+        attack::suite_fd_init(&work, &mut ctx.out, no_openat2);
+        ctx.out.flush().unwrap();
+        drop(ctx);
+        let _ = fs::remove_dir_all(&work);
+        return;
+    }
     if cmd == "fault-init" {
         // no warm-up: the subject is the first use of the library in a fresh process
         attack::suite_fault_init(&work, &mut ctx.out, no_openat2);
